@@ -504,7 +504,7 @@ func c14Bulk(n int, meta bool) (v string) {
 func init() {
 	fw.Register(&fw.Check{
 		ID: "C14", Level: "model_checking", Shards: shards16,
-		Rule:   fmt.Sprintf("explicit-state BFS over the real Muxer: %s-call alphabet (AddFrame of 6 real bitstreams {VP8 even/odd, VP8L opaque/alpha, ALPH-prefixed VP8 with even/odd alpha} x 5 option sets; SetFrameDisposeMode/SetFrameDuration at {0,last,out of range}; SetICCProfile/SetEXIF/SetXMP/AddChunk x {nil,empty,odd,even}; SetLoopCount; SetBackgroundColor; SetCanvasSize), depth 4 quick / 5 thorough, merged by reflection hash of the Muxer's private state; after every history Assemble is checked against a plain-struct model through riffwalk, mux.Demuxer and container.Parser; plus 22 long histories (1..10001 AddFrame calls around the limits 1000 and 10000 visible in the code, with and without metadata) checked the same way", "73"),
+		Rule:   fmt.Sprintf("explicit-state BFS over the real Muxer: %s-call alphabet (AddFrame of 6 real bitstreams {VP8 even/odd, VP8L opaque/alpha, ALPH-prefixed VP8 with even/odd alpha} x 5 option sets; SetFrameDisposeMode/SetFrameDuration at {0,last,out of range}; SetICCProfile/SetEXIF/SetXMP/AddChunk x {nil,empty,odd,even}; SetLoopCount; SetBackgroundColor; SetCanvasSize), depth 4 quick / 5 thorough, merged by reflection hash of the Muxer's private state; after every history Assemble is checked against a plain-struct model through riffwalk, mux.Demuxer and container.Parser; plus 22 long histories (1..10001 AddFrame calls around the limits 1000 and 10000 visible in the code, with and without metadata) checked the same way; plus writer faults: 3 histories (simple still, extended still, animation) assembled into a writer that accepts n bytes and then fails, for every n below the output length", "73"),
 		Assume: []string{"frames are real VP8/VP8L bitstreams produced by this package's encoder (junk data is outside the property's quantifier)", "a rejected Assemble (error) is accepted"},
 		Run: func(e *fw.Env, r *fw.Result) {
 			pin()
@@ -549,6 +549,22 @@ func init() {
 					}
 				}
 			}
+			// writer faults: "what the muxer rejects it rejects with an error, not a corrupt file" also
+			// holds when it is the writer that fails - for EVERY number of bytes the writer accepts
+			for wi, wh := range c14WriterHistories {
+				for _, partial := range []bool{false, true} {
+					k++
+					if !e.Mine(k) {
+						continue
+					}
+					n, v := c14WriterFaults(wh, partial)
+					r.Eval(int64(n))
+					r.Distinct("writer-fault", wi, partial)
+					if v != "" {
+						r.Violate(fmt.Sprintf("mux writer-fault history %d partial=%v", wi, partial), v+" [calls: "+strings.Join(wh, "; ")+"]", map[string]any{"writer": wi, "partial": partial})
+					}
+				}
+			}
 			r.SetInfo("bfs_depth_completed", st.Depth)
 			if e.Shard == 0 {
 				r.SetInfo("frontier_sizes_shard0", st.PerDepth)
@@ -559,12 +575,18 @@ func init() {
 		Replay: func(e *fw.Env, raw json.RawMessage) string {
 			pin()
 			var rp struct {
-				Hist []int
-				Bulk int
-				Meta bool
+				Hist    []int
+				Bulk    int
+				Meta    bool
+				Writer  *int
+				Partial bool
 			}
 			json.Unmarshal(raw, &rp)
 			c14Init()
+			if rp.Writer != nil {
+				_, v := c14WriterFaults(c14WriterHistories[*rp.Writer], rp.Partial)
+				return v
+			}
 			if rp.Bulk > 0 {
 				return c14Bulk(rp.Bulk, rp.Meta)
 			}
@@ -574,6 +596,73 @@ func init() {
 }
 
 // c14Class keys a violation by its kind and the shortest distinguishing part of the history.
+// c14WriterHistories: a simple still, an extended still with alpha and metadata, an animation.
+var c14WriterHistories = [][]string{
+	{"AddFrame(vp8-odd,nil)"},
+	{"AddFrame(alph-odd+vp8,nil)", "SetICCProfile(odd)", "SetXMP(even)"},
+	{"AddFrame(vp8l-opaque,dur100)", "AddFrame(alph-even+vp8,dur50-off3,1-noblend-dispose)", "SetEXIF(odd)", "SetLoopCount(1)"},
+}
+
+type c14LimitWriter struct {
+	limit, got int
+	partial    bool
+	failed     bool
+}
+
+func (w *c14LimitWriter) Write(p []byte) (int, error) {
+	room := w.limit - w.got
+	if len(p) <= room {
+		w.got += len(p)
+		return len(p), nil
+	}
+	w.failed = true
+	if w.partial && room > 0 {
+		w.got += room
+		return room, fmt.Errorf("device full")
+	}
+	return 0, fmt.Errorf("device full")
+}
+
+// c14WriterFaults assembles the history into a writer that accepts n bytes and then fails, for
+// every n below the output length. It returns the number of assemblies and the first violation.
+func c14WriterFaults(calls []string, partial bool) (count int, v string) {
+	defer func() {
+		if r := recover(); r != nil {
+			v = fmt.Sprintf("Assemble panicked when the writer failed: %v", r)
+		}
+	}()
+	build := func() *mux.Muxer {
+		m := mux.NewMuxer()
+		md := &mModel{}
+		for _, name := range calls {
+			found := false
+			for i := range c14Ops {
+				if c14Ops[i].name == name {
+					c14Ops[i].apply(m, md)
+					found = true
+				}
+			}
+			if !found {
+				panic("c14: no operation " + name)
+			}
+		}
+		return m
+	}
+	var full bytes.Buffer
+	if err := build().Assemble(&full); err != nil {
+		return 0, "" // rejected history: nothing to inject into
+	}
+	for n := 0; n < full.Len(); n++ {
+		w := &c14LimitWriter{limit: n, partial: partial}
+		err := build().Assemble(w)
+		count++
+		if w.failed && err == nil {
+			return count, fmt.Sprintf("Assemble returned nil although the writer failed after %d of %d bytes (the file is cut short)", w.got, full.Len())
+		}
+	}
+	return count, ""
+}
+
 func c14Class(v string, h []int) string {
 	if strings.HasPrefix(v, "explicit-canvas still:") {
 		return "explicit-canvas still"
